@@ -82,6 +82,11 @@ def check(prog, rep):
             continue
         if b == "DELEGATE":
             b = a  # the iterative analyser hands this kind to the recursive one
+        if a != b and ("?" in a or "?" in b):
+            # an answer expression the form table does not know (e.g. computed through a new helper): the two texts
+            # differ, which says nothing about the values
+            rep.undecided(f"degree[{key}]: answer form not recognised ({a} / {b}); sibling agreement not decided on this view")
+            continue
         rep.ob("R15.2", f"degree[{key}]", a == b, f"both analysers answer {a}" if a == b else f"recursive analyser answers {a}, iterative analyser answers {b}: the classification of one formula changes when the tree gets deep", loc=prog.func(PAIRS[1][2]).loc, detail="form")
 
     # ------------------------------------------------------------------ R15.2 gradient: arm terms agree
@@ -187,6 +192,21 @@ def check(prog, rep):
     # degree / compile / gradient recursive workers are called only from their switches
     for worker, allowed in (("_compute_degree_impl", {"_compute_degree_cached", "_compute_degree_impl", "_compute_degree_iterative"}), ("_compute_degree_cached", {"compute_degree"}),
                             ("_gradient_cached", {"gradient", "_gradient_cached"}), ("_build_evaluator", {"_compile_cached", "_build_evaluator", "_build_evaluator_iterative", "_build_vector_evaluator"})):
+        # a private helper called only from functions behind the switch is itself behind the switch
+        allowed = set(allowed)
+        grew = True
+        while grew:
+            grew = False
+            for fi in prog.functions.values():
+                if fi.name in allowed or not fi.name.startswith("_") or fi.cls is not None:
+                    continue
+                if not any(dotted(c.func) == worker for c in calls(fi.node)):
+                    continue
+                callers = {g.name for g in prog.functions.values() if g is not fi and any(isinstance(n, ast.Name) and n.id == fi.name for n in ast.walk(g.node))}
+                exported = any(isinstance(n, (ast.alias,)) and n.name == fi.name for m in prog.modules.values() for n in ast.walk(m.tree))
+                if callers and callers <= allowed and not exported:
+                    allowed.add(fi.name)
+                    grew = True
         for fi in prog.functions.values():
             for c in calls(fi.node):
                 if dotted(c.func) == worker and fi.name not in allowed:
